@@ -354,18 +354,23 @@ variable [LT α] [DecidableLT α] [Zero α]
 
 /-- **moving window**: change scores that agree on cuts `s < k < e ≤ n` give the same score curve,
     hence the same changepoints -/
-theorem mwScores_congr (cs cs' : Nat → Nat → Nat → α) (n b : Nat) (hb : 1 ≤ b)
-    (h : ∀ s k e, s < k → k < e → e ≤ n → cs s k e = cs' s k e) :
+theorem mwScores_congr_read (cs cs' : Nat → Nat → Nat → α) (n b : Nat)
+    (h : ∀ s k e, s + b = k → k + b = e → e ≤ n → cs s k e = cs' s k e) :
     mwScores cs n b 0 = mwScores cs' n b 0 := by
   funext t
   simp only [mwScores, Nat.add_zero]
   split
   · rename_i hc
-    exact h _ _ _ (by omega) (by omega) hc.2
+    exact h _ _ _ (by omega) rfl hc.2
   · rfl
 
-theorem amoc_congr (cs cs' : Nat → Nat → Nat → α) (m n : Nat) (hm : 1 ≤ m) (iv : Nat × Nat)
-    (hiv : iv.2 ≤ n) (h : ∀ s k e, s < k → k < e → e ≤ n → cs s k e = cs' s k e) :
+theorem mwScores_congr (cs cs' : Nat → Nat → Nat → α) (n b : Nat) (hb : 1 ≤ b)
+    (h : ∀ s k e, s < k → k < e → e ≤ n → cs s k e = cs' s k e) :
+    mwScores cs n b 0 = mwScores cs' n b 0 :=
+  mwScores_congr_read cs cs' n b (fun s k e h1 h2 h3 => h s k e (by omega) (by omega) h3)
+
+theorem amoc_congr_read (cs cs' : Nat → Nat → Nat → α) (m n : Nat) (iv : Nat × Nat)
+    (hiv : iv.2 ≤ n) (h : ∀ s k e, s + m ≤ k → k + m ≤ e → e ≤ n → cs s k e = cs' s k e) :
     amoc cs m iv = amoc cs' m iv := by
   simp only [amoc]
   split
@@ -400,6 +405,11 @@ theorem amoc_congr (cs cs' : Nat → Nat → Nat → α) (m n : Nat) (hm : 1 ≤
       exact this _ _ _ _
     exact h _ _ _ (by omega) (by omega) hiv
 
+theorem amoc_congr (cs cs' : Nat → Nat → Nat → α) (m n : Nat) (hm : 1 ≤ m) (iv : Nat × Nat)
+    (hiv : iv.2 ≤ n) (h : ∀ s k e, s < k → k < e → e ≤ n → cs s k e = cs' s k e) :
+    amoc cs m iv = amoc cs' m iv :=
+  amoc_congr_read cs cs' m n iv hiv (fun s k e h1 h2 h3 => h s k e (by omega) (by omega) h3)
+
 theorem mapOpt_congr {β γ : Type} (f g : β → Option γ) : ∀ (l : List β),
     (∀ b ∈ l, f b = g b) → mapOpt f l = mapOpt g l
   | [], _ => rfl
@@ -408,12 +418,18 @@ theorem mapOpt_congr {β γ : Type} (f g : β → Option γ) : ∀ (l : List β)
 
 /-- **seeded binary segmentation**: change scores that agree on cuts inside `[0, n]` give the same
     table and the same changepoints -/
+theorem runSbs_congr_read (cs cs' : Nat → Nat → Nat → α) (m n : Nat) (thr : α)
+    (ivs : List (Nat × Nat)) (hivs : ∀ iv ∈ ivs, iv.2 ≤ n)
+    (h : ∀ s k e, s + m ≤ k → k + m ≤ e → e ≤ n → cs s k e = cs' s k e) :
+    runSbs cs m thr ivs = runSbs cs' m thr ivs := by
+  simp only [runSbs]
+  rw [mapOpt_congr (amoc cs m) (amoc cs' m) ivs (fun iv hiv => amoc_congr_read cs cs' m n iv (hivs iv hiv) h)]
+
 theorem runSbs_congr (cs cs' : Nat → Nat → Nat → α) (m n : Nat) (hm : 1 ≤ m) (thr : α)
     (ivs : List (Nat × Nat)) (hivs : ∀ iv ∈ ivs, iv.2 ≤ n)
     (h : ∀ s k e, s < k → k < e → e ≤ n → cs s k e = cs' s k e) :
-    runSbs cs m thr ivs = runSbs cs' m thr ivs := by
-  simp only [runSbs]
-  rw [mapOpt_congr (amoc cs m) (amoc cs' m) ivs (fun iv hiv => amoc_congr cs cs' m n hm iv (hivs iv hiv) h)]
+    runSbs cs m thr ivs = runSbs cs' m thr ivs :=
+  runSbs_congr_read cs cs' m n thr ivs hivs (fun s k e h1 h2 h3 => h s k e (by omega) (by omega) h3)
 
 end det
 /-! ### circular binary segmentation -/
